@@ -6,6 +6,7 @@ package main
 
 import (
 	"fmt"
+	"strings"
 )
 
 type colKind int
@@ -73,6 +74,18 @@ var staticFileOrder = []string{"agency.txt", "routes.txt", "stops.txt", "transfe
 
 var idStyles = []string{"%s%d", "%s %d", `%s,"%d"`, "%s-é%d", "#%s%d"}
 
+// caseVariantID: ids that are equal under case folding and distinct as written ("Aqz", "aqz",
+// "AQz", "aQz", ...): ids are compared verbatim.
+func caseVariantID(prefix string, i int) string {
+	base := []byte(strings.ToLower(prefix) + "qz")
+	for k := range base {
+		if ((i+1)>>uint(k))&1 == 1 && base[k] >= 'a' && base[k] <= 'z' {
+			base[k] -= 'a' - 'A'
+		}
+	}
+	return string(base) + strings.Repeat("'", i/(1<<uint(len(base))))
+}
+
 type staticGen struct {
 	c *Ctx
 	// vary: when false every choice takes its default without creating a choice point (used
@@ -116,8 +129,11 @@ func max1(n int) int {
 func (g *staticGen) id(prefix string, i int) string {
 	st, ok := g.style[prefix]
 	if !ok {
-		st = g.choose("idstyle."+prefix, len(idStyles))
+		st = g.choose("idstyle."+prefix, len(idStyles)+1)
 		g.style[prefix] = st
+	}
+	if st == len(idStyles) {
+		return caseVariantID(prefix, i)
 	}
 	return fmt.Sprintf(idStyles[st], prefix, i+1)
 }
@@ -458,7 +474,7 @@ func genPresentation(c *Ctx, free bool) presentation {
 	}
 	return presentation{
 		ColOrder:     ch("present.column_order", 3),
-		ExtraCol:     ch("present.unknown_column", 4),
+		ExtraCol:     ch("present.unknown_column", 5),
 		ExtraFile:    ch("present.extra_files", 2) == 1,
 		ReverseFiles: ch("present.member_order_reversed", 2) == 1,
 		Deflate:      ch("present.deflate", 2) == 1,
